@@ -17,7 +17,7 @@ pub fn prop() -> Prop {
             "get_power_series and friends document no minimum length, so length 0 is in the domain",
             "the thread-count clause (same values for every thread count around threads*1024) is decided by the serial/concurrent differential stage of this check (vdet family 'batch'; evidence key thread_differential)",
         ],
-        subs: vec![Sub::gen("batch", batch_case, 96, 24_000, 1_000_000), Sub::gen("slices", slice_case, 32, 100_000, 4_000_000)],
+        subs: vec![Sub::gen("batch", batch_case, 96, 24_000, 500_000), Sub::gen("slices", slice_case, 32, 100_000, 4_000_000)],
         required: vec!["len_0", "len_1024", "len_1025", "fn:batch_inversion", "fn:get_power_series", "fn:get_power_series_with_offset", "fn:add_in_place", "fn:mul_acc", "inversion_with_zero_and_nonzero", "fn:transpose_slice", "fn:group_slice_elements", "fn:flatten_vector_elements"],
         required_thorough: vec![],
     }
